@@ -212,14 +212,29 @@ int crypto_core_hsalsa20(unsigned char *out, const unsigned char *in, const unsi
 /* ------------------------------------------------------------------------------------------------ Poly1305 */
 #ifdef V_STUB_POLY1305
 #include "crypto_onetimeauth_poly1305.h"
+#ifdef V_POLY_STREAM
+/* ghost MAC-input stream: total length absorbed since the last init, and the byte absorbed at ghost stream offset v_mac_g */
+unsigned long long v_mac_total, v_mac_g = ~0ULL; unsigned char v_mac_gbyte; int v_mac_has, v_mac_bad_st; const void *v_mac_st;
+#endif
 int crypto_onetimeauth_poly1305_init(crypto_onetimeauth_poly1305_state *state, const unsigned char *key)
 {
     struct v_ev *e = v_push(V_OP_POLY_INIT);
     e->st = state; e->kptr = key; v_in(key, 32); e->flags = v_kflags(key); v_out(state, sizeof *state);
+#ifdef V_POLY_STREAM
+    v_mac_total = 0; v_mac_has = 0; v_mac_bad_st = 0; v_mac_st = state;
+#endif
     return 0;
 }
 int crypto_onetimeauth_poly1305_update(crypto_onetimeauth_poly1305_state *state, const unsigned char *in, unsigned long long inlen)
 {
+#ifdef V_POLY_STREAM
+    /* stream mode: the MAC input is the concatenation of all updates, however it is chunked; no event is logged */
+    v_in(in, inlen);
+    if (state != v_mac_st) v_mac_bad_st = 1;
+    if (v_mac_g >= v_mac_total && v_mac_g - v_mac_total < inlen) { v_mac_gbyte = in[v_mac_g - v_mac_total]; v_mac_has = 1; }
+    v_mac_total += inlen;
+    return 0;
+#endif
     struct v_ev *e = v_push(V_OP_POLY_UPDATE);
     e->st = state; e->in = in; e->len = inlen; v_in(in, inlen);
     e->flags = v_dflags(in, inlen) | ((inlen == 64 && v_ref_d64 && v_eq(in, v_ref_d64, 64)) ? V_F_D_REF64 : 0); if (inlen == 8) e->d64 = v_le64(in);
@@ -228,6 +243,9 @@ int crypto_onetimeauth_poly1305_update(crypto_onetimeauth_poly1305_state *state,
 int crypto_onetimeauth_poly1305_final(crypto_onetimeauth_poly1305_state *state, unsigned char *out)
 {
     struct v_ev *e = v_push(V_OP_POLY_FINAL);
+#ifdef V_POLY_STREAM
+    if (state != v_mac_st) v_mac_bad_st = 1;
+#endif
     e->st = state; e->out = out; v_fixed_out(out, v_tag, 16);
     return 0;
 }
